@@ -38,6 +38,12 @@ const psPreamble = `/SA 1 array def SA 0 SA put ` + // array containing itself
 	`/MA {0 0 0 0 0 0 0 0 0 0 0 0} def /MB {0 0 0 0 0 0 0 0 0 0 0 0} def ` +
 	`0 1 11 {/MA load exch /MB load put} for 0 1 11 {/MB load exch /MA load put} for ` + // mutually nested procedures
 	`/SD 2 dict def SD /self SD put ` + // dictionary containing itself
+	// directed acyclic graphs 48 levels deep in which every level refers twice to
+	// the level below: 2^48 paths, 48 objects (a walk must remember what it has
+	// seen, not only what is on its current path)
+	`/DG {1} def 48 { 2 array dup 0 /DG load put dup 1 /DG load put cvx /DG exch def } repeat ` +
+	`/DA [1] def 48 { 2 array dup 0 DA put dup 1 DA put /DA exch def } repeat ` +
+	`/DD 1 dict def 48 { 2 dict dup /a DD put dup /b DD put /DD exch def } repeat ` +
 	`/BS 65536 string def `
 
 var operands = []string{
@@ -47,6 +53,8 @@ var operands = []string{
 	"/a", "true", "mark", "currentfile", "SD", "systemdict",
 	// names of existing resource categories / instances, system objects, an error handler object
 	"/Font", "/ProcSet", "/CIDInit", "errordict", "errordict /typecheck get", "StandardEncoding",
+	// the deep shared graphs
+	"/DG load", "DA", "DD",
 }
 
 var sysOps = []string{
@@ -96,7 +104,7 @@ func pow(b, e int) int {
 }
 
 // operandsSmall is the pool used one arity above the full enumeration.
-var operandsSmall = []string{"0", "1", "-1", "9223372036854775807", "-9223372036854775808", "65537", "(abc)", "BS", "[1 2]", "SA", "{}", "/MA load", "/a", "SD", "mark", "/Font", "errordict /typecheck get"}
+var operandsSmall = []string{"0", "1", "-1", "9223372036854775807", "-9223372036854775808", "65537", "(abc)", "BS", "[1 2]", "SA", "{}", "/MA load", "/a", "SD", "mark", "/Font", "errordict /typecheck get", "/DG load"}
 
 func tuplesFamily(name string, operands []string, minArity, maxArity int, budget time.Duration) mc.Family {
 	type block struct{ arity, op, variant int }
@@ -648,6 +656,16 @@ func fontKnobCases() []struct {
 				glyphs: map[string][]byte{".notdef": simpleGlyph, "A": simpleGlyph, "B": cs}, order: []string{".notdef", "A", "B"}})
 		}
 	}
+	// the font directory filled by other means than definefont, with other things than fonts
+	for _, w := range append(wrong, "1 dict", "<< /FontType 1 >>", "<< /FontType 1 /CharStrings 5 /Private 1 dict /FontInfo 7 >>", "<< /FontType 1 /CharStrings 1 dict /Private 5 /Encoding 3 >>", "FontDirectory", "null") {
+		for _, how := range []string{"FontDirectory /T %s put", "/T %s /Font defineresource pop", "/T %s definefont pop", "FontDirectory begin /T %s def end", "userdict /FontDirectory get /T %s put"} {
+			prog := "%!PS\n" + fmt.Sprintf(how, w) + "\n"
+			out = append(out, struct {
+				name string
+				data []byte
+			}{"font directory entry by `" + fmt.Sprintf(how, w) + "`", []byte(prog)})
+		}
+	}
 	// two fonts, no font
 	out = append(out, struct {
 		name string
@@ -820,7 +838,7 @@ func main() {
 				repeatFamily(budget),
 				mc.Family{
 					Name: "font-knobs", Items: len(knobs), Budget: budget,
-					Rule: "type1.Read on generated fonts: /lenIV from 17 values (min int, -2^40, -1, 0..7, 65536, 2^31, 2^62, max int, real, string, name, boolean) x charstrings of 0..9 bytes; missing FontInfo/Private/CharStrings/FontType; every dictionary entry the reader looks at (9 top-level, 10 Private, 9 FontInfo) set to each of 14 wrongly typed values; odd Encoding arrays; seac with hostile component codes x 4 encodings; no font; two fonts; non-trivial = every case",
+					Rule: "type1.Read on generated fonts: /lenIV from 17 values (min int, -2^40, -1, 0..7, 65536, 2^31, 2^62, max int, real, string, name, boolean) x charstrings of 0..9 bytes; missing FontInfo/Private/CharStrings/FontType; every dictionary entry the reader looks at (9 top-level, 10 Private, 9 FontInfo) set to each of 14 wrongly typed values; odd Encoding arrays; seac with hostile component codes x 4 encodings; the font directory filled through put / defineresource / definefont / def with 20 kinds of non-font values; no font; two fonts; non-trivial = every case",
 					Body: func(c *mc.Ctx, item int) mc.Verdict {
 						_, err := type1.Read(bytes.NewReader(knobs[item].data))
 						c.Step()
